@@ -981,4 +981,95 @@ theorem matchFloat_derives (prev : Option Char) (s m r : Str) (h : matchFloat pr
 
 end numbers
 
+
+-- helpers for the token-level string theorems and adjacent strings ---------------------------------------
+
+theorem matchInt_quote (s : Str) : matchInt ('\'' :: s) = none ∧ matchInt ('"' :: s) = none := by
+  constructor <;> cases s <;> simp [matchInt, matchPrefInt, matchDecInt]
+
+theorem matchFloat_quote (prev : Option Char) (s : Str) :
+    matchFloat prev ('\'' :: s) = none ∧ matchFloat prev ('"' :: s) = none := by
+  constructor <;>
+  · unfold matchFloat
+    split
+    · rfl
+    · simp [digitRun, digitRunF, isDigit]
+
+/-- at a quote character the tag rule is decided by the string scanner (no earlier rule can match) -/
+theorem tagRule_quote (q : Char) (hq : q = '\'' ∨ q = '"') (prev : Option Char) (s : Str) (m : Str × Str)
+    (hm : matchString (q :: s) = some m) : tagRule prev (q :: s) = .tok .string m.1 m.2 := by
+  rcases hq with rfl | rfl
+  · unfold tagRule
+    rw [(matchFloat_quote prev s).1, (matchInt_quote s).1, hm]
+    simp [spanSpace, spanP, isSpace, matchName, isWord, isDigit]
+  · unfold tagRule
+    rw [(matchFloat_quote prev s).2, (matchInt_quote s).2, hm]
+    simp [spanSpace, spanP, isSpace, matchName, isWord, isDigit]
+
+theorem reprStyle_ok (printable : Nat → Bool) (q c : Nat) (hq : q = 39 ∨ q = 34) (hc : c < 0x110000) :
+    (reprStyle printable q c).ok q c = true := by
+  unfold reprStyle
+  split
+  · rename_i h
+    simp only [Bool.or_eq_true, beq_iff_eq] at h
+    rcases h with rfl | rfl
+    · rfl
+    · rcases hq with rfl | rfl <;> rfl
+  · split
+    · rename_i h
+      simp only [Bool.or_eq_true, beq_iff_eq] at h
+      rcases h with (rfl | rfl) | rfl <;> rfl
+    · split
+      · rename_i h
+        simp only [Bool.or_eq_true, beq_iff_eq, decide_eq_true_eq] at h
+        simp only [Style.ok, decide_eq_true_eq]; omega
+      · rename_i h1 h2 h3
+        simp only [Bool.or_eq_true, beq_iff_eq, not_or] at h1 h2
+        have raw_ok : Style.ok q c .raw = true := by
+          simp only [Style.ok, Bool.and_eq_true, bne_iff_ne, ne_eq, decide_eq_true_eq]
+          exact ⟨⟨⟨h1.1, h1.2⟩, h2.2⟩, hc⟩
+        split
+        · exact raw_ok
+        · split
+          · exact raw_ok
+          · split
+            · rename_i h; simpa [Style.ok] using h
+            · split
+              · rename_i h; simpa [Style.ok] using h
+              · simpa [Style.ok] using hc
+
+theorem repr_stylesOk (printable : Nat → Bool) (q : Nat) (hq : q = 39 ∨ q = 34) :
+    ∀ (v : List Nat), (∀ c ∈ v, c < 0x110000) → stylesOk q (v.map (reprStyle printable q)) v = true
+  | [], _ => rfl
+  | c :: v, h => by
+    simp only [List.map_cons, stylesOk, Bool.and_eq_true]
+    exact ⟨reprStyle_ok printable q c hq (h c (by simp)), repr_stylesOk printable q hq v (fun x hx => h x (by simp [hx]))⟩
+
+theorem repr_rawScalar (printable : Nat → Bool) (q : Nat)
+    (hp : ∀ c, printable c = true → (c < 0xd800 ∨ (0xdfff < c ∧ c < 0x110000))) :
+    ∀ (v : List Nat), rawScalar (v.map (reprStyle printable q)) v = true
+  | [] => rfl
+  | c :: v => by
+    simp only [List.map_cons, rawScalar, Bool.and_eq_true]
+    refine ⟨?_, repr_rawScalar printable q hp v⟩
+    unfold reprStyle
+    repeat' split
+    all_goals first
+      | rfl
+      | (rename_i h; simp only [Bool.or_eq_true, decide_eq_true_eq, Bool.and_eq_true, bne_self_eq_false, Bool.false_or]
+         first
+           | (have := hp c h; omega)
+           | omega)
+
+theorem stringRun_strings (vs : List (List Nat)) (rest : List PTok) (hrest : ∀ v r, rest ≠ .string v :: r) :
+    stringRun (vs.map .string ++ rest) = (vs, rest) := by
+  induction vs with
+  | nil =>
+    simp only [List.map_nil, List.nil_append]
+    unfold stringRun
+    split
+    · rename_i v r; exact absurd rfl (hrest v r)
+    · rfl
+  | cons v vs ih => simp [stringRun, ih]
+
 end JinjaV.Literal
